@@ -1,6 +1,8 @@
 import GitBugModel.Model.Dag
 import GitBugModel.Lemmas.PackSort
 import GitBugModel.Props.C03
+import GitBugModel.Lemmas.Reach
+import GitBugModel.Model.Knowledge
 /-!
 # C01 — replicas that exchanged everything show identical bugs (convergence)
 
@@ -11,10 +13,13 @@ matter.  Two replicas that have received every operation the other knows reach t
 non-empty packs, hence show the same operations in the same order, hence the same compiled
 state (the compiler is a function of the operation list, see C10).
 
-The system-level part — that pull;push rounds do bring every replica to reach the same packs
-and keep every ref readable — is validated by the correspondence run (replica schedules) and by
-the theorems of C02 (each merge keeps both sides' packs) and C05 (clocks); it is not proved as
-one invariant here.
+The system-level part is proved in two layers below: (1) every outcome of a merge leaves a head
+that reaches exactly what the local and the remote head reached (`merge_reach_fastforward`,
+`merge_reach_nothing`, `merge_reach_diverged`, on top of the correctness of the breadth-first
+collection, `Lemmas/Reach`), and (2) at the level of what each replica reaches, one round of
+pull;push by everybody followed by one round of pull leaves every replica with everything
+anybody had (`exchange_converges`).  That every ref stays readable along the way is C02/C05 and
+the replica harness.
 -/
 namespace GitBugModel.Props.C01
 open GitBugModel.Dag
@@ -65,6 +70,153 @@ theorem convergence_enum_indep {s : Store} {h : String} {e : Entity} (r : Dag.re
     (hk : KeyOK e.packs) (enum₁ enum₂ : List Pack) (p₁ : enum₁.Perm e.packs) (p₂ : enum₂.Perm e.packs) :
     opsOf enum₁ = opsOf enum₂ := by
   rw [C03.read_enum_indep r hk enum₁ p₁, C03.read_enum_indep r hk enum₂ p₂]
+
+/-! ## what a merged head reaches -/
+
+/-- fast-forward: the remote head already reaches the local one, so it reaches all the local one reached -/
+theorem merge_reach_fastforward {s : Store} {l rh : String} {o1 o2 : List Commit}
+    (hb1 : bfs s (s.length + 1) [rh] [rh] [] = .ok o1) (hb2 : bfs s (s.length + 1) [l] [l] [] = .ok o2)
+    (hff : l ∈ reach s rh) : ∀ y, y ∈ reach s l ∨ y ∈ reach s rh ↔ y ∈ reach s rh := by
+  intro y
+  constructor
+  · rintro (h | h)
+    · exact reach_trans hb1 hb2 hff y h
+    · exact h
+  · exact Or.inr
+
+/-- nothing to do: the local head already reaches the remote one -/
+theorem merge_reach_nothing {s : Store} {l rh : String} {o1 o2 : List Commit}
+    (hb1 : bfs s (s.length + 1) [l] [l] [] = .ok o1) (hb2 : bfs s (s.length + 1) [rh] [rh] [] = .ok o2)
+    (hn : rh ∈ reach s l) : ∀ y, y ∈ reach s l ∨ y ∈ reach s rh ↔ y ∈ reach s l := by
+  intro y
+  constructor
+  · rintro (h | h)
+    · exact h
+    · exact reach_trans hb1 hb2 hn y h
+  · exact Or.inl
+
+/-- diverged: the merge commit (a new hash, parents = the two heads) reaches itself and exactly
+what the two heads reached (proved in `Lemmas/Reach`) -/
+theorem merge_reach_diverged (s : Store) (l rh nh mp au : String) (e : Nat) (hfresh : lookup s nh = none) (y : String) :
+    Reach (s ++ [mkMergeCommit nh l rh mp au e]) nh y ↔ y = nh ∨ Reach s l y ∨ Reach s rh y :=
+  Dag.merge_reach_diverged s l rh nh mp au e hfresh y
+
+/-! ## exchange through a remote, at the level of what each replica reaches -/
+
+open GitBugModel.Knowledge
+
+theorem reps_pull (σ : Sys) (i : Nat) : (pull σ i).reps.length = σ.reps.length := by
+  simp [pull]
+
+/-- pulls and pushes never lose anything, anywhere -/
+theorem pull_mono (σ : Sys) (i j : Nat) (k : KSet) (hk : σ.reps[j]? = some k) :
+    ∃ k', (pull σ i).reps[j]? = some k' ∧ ∀ x, k x → k' x := by
+  unfold pull
+  by_cases hij : i = j
+  · subst hij
+    refine ⟨fun x => k x ∨ σ.remote x, ?_, fun x h => Or.inl h⟩
+    simp [List.getElem?_modify, hk]
+  · refine ⟨k, ?_, fun x h => h⟩
+    simp [List.getElem?_modify, hij, hk]
+
+/-- after `pull i; push i` the remote has everything it had and everything replica `i` had -/
+theorem pull_push_remote (σ : Sys) (i : Nat) (k : KSet) (hk : σ.reps[i]? = some k) :
+    ∀ x, (push (pull σ i) i).remote x ↔ σ.remote x ∨ k x := by
+  intro x
+  have h1 : (pull σ i).reps[i]? = some (fun x => k x ∨ σ.remote x) := by
+    simp [pull, List.getElem?_modify, hk]
+  unfold push
+  rw [h1]
+  simp only [pull]
+  constructor
+  · rintro (h | h | h)
+    · exact Or.inl h
+    · exact Or.inr h
+    · exact Or.inl h
+  · rintro (h | h)
+    · exact Or.inl h
+    · exact Or.inr (Or.inl h)
+
+theorem push_reps (σ : Sys) (i : Nat) : (push σ i).reps = σ.reps := by
+  unfold push; split <;> rfl
+
+/-- the remote only grows along a pass of pull;push, and ends with what every replica on the list had -/
+theorem passPullPush_remote (is : List Nat) : ∀ (σ : Sys),
+    (∀ x, σ.remote x → (passPullPush σ is).remote x) ∧
+    (∀ i ∈ is, ∀ k, σ.reps[i]? = some k → ∀ x, k x → (passPullPush σ is).remote x) := by
+  induction is with
+  | nil => intro σ; exact ⟨fun _ h => h, fun i hi => by cases hi⟩
+  | cons a t ih =>
+    intro σ
+    simp only [passPullPush]
+    have ih' := ih (push (pull σ a) a)
+    refine ⟨?_, ?_⟩
+    · intro x hx
+      apply ih'.1
+      cases ha : σ.reps[a]? with
+      | some k => exact (pull_push_remote σ a k ha x).mpr (Or.inl hx)
+      | none =>
+        have : (pull σ a).reps[a]? = none := by simp [pull, List.getElem?_modify, ha]
+        simp only [push, this]; exact hx
+    · intro i hi k hk x hx
+      cases hi with
+      | head => exact ih'.1 x ((pull_push_remote σ a k hk x).mpr (Or.inr hx))
+      | tail _ hi' =>
+        obtain ⟨k', hk', hmono⟩ := pull_mono σ a i k hk
+        have hk'' : (push (pull σ a) a).reps[i]? = some k' := by rw [push_reps]; exact hk'
+        exact ih'.2 i hi' k' hk'' x (hmono x hx)
+
+/-- `exchange_converges`: every replica pulls and pushes once (in any order `order1` that names
+them all), then every replica pulls once more (`order2`, naming them all): afterwards each replica
+reaches everything that the remote or any replica reached at the beginning — all the same. -/
+theorem exchange_converges (σ : Sys) (order1 order2 : List Nat)
+    (h1 : ∀ i, i < σ.reps.length → i ∈ order1) (h2 : ∀ i, i < σ.reps.length → i ∈ order2)
+    (i : Nat) (hi : i < σ.reps.length) (x : String) (hx : everything σ x) :
+    ∃ k, (passPull (passPullPush σ order1) order2).reps[i]? = some k ∧ k x := by
+  -- after the first pass the remote has everything
+  have hrem : (passPullPush σ order1).remote x := by
+    rcases hx with hx | ⟨k, hk, hkx⟩
+    · exact (passPullPush_remote order1 σ).1 x hx
+    · obtain ⟨j, hj, hjk⟩ := List.mem_iff_getElem.mp hk
+      exact (passPullPush_remote order1 σ).2 j (h1 j hj) k (by rw [List.getElem?_eq_getElem hj, hjk]) x hkx
+  -- lengths are preserved
+  have len1 : ∀ (is : List Nat) (τ : Sys), (passPullPush τ is).reps.length = τ.reps.length := by
+    intro is
+    induction is with
+    | nil => intro τ; rfl
+    | cons a t ih => intro τ; simp only [passPullPush]; rw [ih, push_reps, reps_pull]
+  -- in the second pass: the remote is untouched, and whoever pulls gets it
+  have key : ∀ (is : List Nat) (τ : Sys), τ.remote x → i < τ.reps.length → i ∈ is →
+      ∃ k, (passPull τ is).reps[i]? = some k ∧ k x := by
+    intro is
+    induction is with
+    | nil => intro τ _ _ h; cases h
+    | cons a t ih =>
+      intro τ hr hlen hmem
+      simp only [passPull]
+      by_cases ha : a = i
+      · subst ha
+        -- replica a pulls now; later pulls only add
+        have hnow : ∃ k, (pull τ a).reps[a]? = some k ∧ k x := by
+          refine ⟨fun y => τ.reps[a] y ∨ τ.remote y, ?_, Or.inr hr⟩
+          simp [pull, List.getElem?_modify, List.getElem?_eq_getElem hlen]
+        have later : ∀ (js : List Nat) (υ : Sys), (∃ k, υ.reps[a]? = some k ∧ k x) →
+            ∃ k, (passPull υ js).reps[a]? = some k ∧ k x := by
+          intro js
+          induction js with
+          | nil => intro υ h; exact h
+          | cons b u ihu =>
+            intro υ ⟨k, hk, hkx⟩
+            simp only [passPull]
+            obtain ⟨k', hk', hm⟩ := pull_mono υ b a k hk
+            exact ihu _ ⟨k', hk', hm x hkx⟩
+        exact later t _ hnow
+      · have hmem' : i ∈ t := by
+          cases hmem with
+          | head => exact absurd rfl ha
+          | tail _ h => exact h
+        exact ih (pull τ a) (by simpa [pull] using hr) (by rw [reps_pull]; exact hlen) hmem'
+  exact key order2 _ hrem (by rw [len1]; exact hi) (h2 i hi)
 
 /-! ## non-vacuity: the same three operation packs merged in two different shapes -/
 
